@@ -32,7 +32,10 @@ REGEXES = ["a", "b", "$", "a b"]
 def case_strategy(draw):
     reserved = draw(st.integers(0, 4)) == 0
     small = draw(st.integers(0, 3)) == 0
-    rules = draw(ref_ig.ig_rules(max_rules=4 if small else 8, max_nt=3 if small else 4, reserved=reserved))
+    if not small and draw(st.integers(0, 2)) == 0:
+        rules = draw(ref_ig.ig_rules_skeleton(reserved=reserved))
+    else:
+        rules = draw(ref_ig.ig_rules(max_rules=4 if small else 8, max_nt=3 if small else 4, reserved=reserved))
     perm = draw(st.permutations(list(range(len(rules)))))
     dup = draw(st.integers(0, len(rules))) if draw(st.integers(0, 3)) == 0 else None
     if draw(st.booleans()):
@@ -111,6 +114,16 @@ def run_case(case):
     cons = [(r[1], r[2]) for r in rules if r[0] == "cons"]
     if len(cons) != len(set(cons)):
         labels.append("several_consumptions_same_index_and_variable")
+    pushed = {(r[3], r[2]) for r in rules if r[0] == "prod"}
+    for d in (r for r in rules if r[0] == "dup"):
+        for i in {i for (i, y) in pushed if y == d[1]}:
+            if any(c[0] == "cons" and c[1] == i and c[2] == d[2] for c in rules) and \
+                    any(c[0] == "cons" and c[1] == i and c[2] == d[3] for c in rules):
+                labels.append("push_duplicate_consume_both")
+                break
+        else:
+            continue
+        break
     if "T" in {x for r in rules for x in r[1:]}:
         labels.append("reserved_names")
     return {"failures": failures, "labels": labels, "nontrivial": len(kinds) >= 3 and "cons" in kinds}
